@@ -91,7 +91,11 @@ func runLock(c lockCase) (log []step, branch, chosen []int, err error) {
 		i := i
 		go func() {
 			defer func() { events <- event{actor: i, done: true} }()
-			opts := []core.PurgeOption{core.WithPurgeLogger(hx.Nop), core.WithPurgeForce(c.Kinds[i] == jobForced)}
+			// --force is only passed by the job that asks for it: the others rely on the default
+			opts := []core.PurgeOption{core.WithPurgeLogger(hx.Nop)}
+			if c.Kinds[i] == jobForced {
+				opts = append(opts, core.WithPurgeForce(true))
+			}
 			res[i].lockErr = core.PurgeLock(views[i].Stores, opts...)
 			if res[i].lockErr == nil && c.Kinds[i] != jobStale {
 				res[i].unlocked = true
